@@ -22,7 +22,11 @@
     nothing after them runs; `e?` evaluates `e` and leaves the function with
     `None` when it is `None`;
   * `x = e` evaluates `e`, then stores; `x op= e` reads `x`, then evaluates
-    `e`, then stores `old x op e`;
+    `e`, then stores `old x op e`; the same with a field `x.f` as the target
+    (the new field value goes into the record `x` holds after `e` ran);
+  * a record literal evaluates its field expressions in the order in which the
+    literal WRITES them — which need not be the order of the record type — and
+    each value becomes the field it was written for;
   * a script-function call evaluates the arguments left to right, then runs
     the callee to its end or to its first `return`.
 
@@ -138,6 +142,8 @@ inductive Expr
   | block (b : Block)
   | assign (x : Nat) (e : Expr)
   | cassign (op : BinOp) (x : Nat) (e : Expr)
+  | assignF (x : Nat) (i : Nat) (e : Expr)                 -- `x.f = e`: field `i` of the record variable `x`
+  | cassignF (op : BinOp) (x : Nat) (i : Nat) (e : Expr)   -- `x.f op= e`
   | ret (e : Expr)
   | accept (e : Expr)
   | reject (e : Expr)
@@ -145,7 +151,9 @@ inductive Expr
   | some (e : Expr)                      -- `Option.Some(e)`
   | none                                 -- `Option.None`
   | ctor (v : Nat) (args : Exprs)        -- `E.V(args…)`
-  | record (fs : Exprs)
+  /-- record literal: `fs` are the field expressions AS WRITTEN; `perm[i]` is the position,
+      in the declaration of the record type, of the field the i-th written expression belongs to -/
+  | record (perm : List Nat) (fs : Exprs)
   | field (e : Expr) (i : Nat)
   | list (es : Exprs)
   | fstr (ps : Parts)
@@ -288,6 +296,32 @@ def bindPat (env : Env) (v : Val) : Pat → Option Env
   | .wild => some env
   | .variant _ bs => bindAll bs (fieldsOf v) env
 
+/-- A record literal names every field of its type exactly once: `perm` (position in the
+    type of the i-th field as written) is a permutation of `0 … n-1`. -/
+def permOk (perm : List Nat) (n : Nat) : Bool :=
+  decide (perm.length = n) && perm.all (· < n) && decide perm.Nodup
+
+/-- The record value a literal builds: the i-th value AS WRITTEN lands in position `perm[i]`
+    of the record type (the field it was written for). -/
+def arrangeFrom (cur : List Int) : List Nat → List Int → List Int
+  | p :: ps, x :: xs => arrangeFrom (cur.set p x) ps xs
+  | _, _ => cur
+
+def arrange (perm : List Nat) (xs : List Int) : List Int :=
+  arrangeFrom (List.replicate xs.length 0) perm xs
+
+/-- field `i` of the record the variable `x` holds -/
+def getField (env : Env) (x i : Nat) : Option Int :=
+  match lookup env x with
+  | some (.recd fs) => fs[i]?
+  | _ => none
+
+/-- the record the variable `x` holds NOW, with field `i` replaced -/
+def setField (env : Env) (x i : Nat) (k : Int) : Option Env :=
+  match lookup env x with
+  | some (.recd fs) => if i < fs.length then update env x (.recd (fs.set i k)) else none
+  | _ => none
+
 def showInt (v : Int) : String := toString v
 
 /-- What `{e}` inside an f-string appends. -/
@@ -411,6 +445,28 @@ def evalExpr (fns : List FnDef) : Nat → Env → Expr → R (Env × Val)
           match update env x v with
           | some env => pure (env, .unit)
           | none => .stuck "assignment to unbound variable"
+    | .assignF x i e => do
+      let (env, v) ← evalExpr fns n env e
+      match v with
+      | .int k =>
+        match setField env x i k with
+        | some env => pure (env, .unit)
+        | none => .stuck "assignment to a field: target"
+      | _ => .stuck "assignment to a field: payload"
+    | .cassignF op x i e =>
+      -- the target field is read first
+      if !op.isArith then .stuck "compound assignment operator" else
+      match getField env x i with
+      | none => .stuck "compound assignment to a field: target"
+      | some a => do
+        let (env, b) ← evalExpr fns n env e
+        match binop op (.int a) b with
+        | some (.int k) =>
+          -- … and stored into the record the variable holds after the right-hand side ran
+          match setField env x i k with
+          | some env => pure (env, .unit)
+          | none => .stuck "compound assignment to a field: target"
+        | _ => .stuck "compound assignment: operand types"
     | .ret e => do
       let (_, v) ← evalExpr fns n env e
       R.early v
@@ -439,9 +495,12 @@ def evalExpr (fns : List FnDef) : Nat → Env → Expr → R (Env × Val)
     | .ctor k args => do
       let (env, fs) ← evalInts fns n env args
       pure (env, .enm k fs)
-    | .record fs => do
-      let (env, fs) ← evalInts fns n env fs
-      pure (env, .recd fs)
+    | .record perm fs => do
+      -- the field expressions run in the order in which they are WRITTEN, whatever the order of
+      -- the fields in the record type; each value is stored in the field it was written for
+      let (env, xs) ← evalInts fns n env fs
+      if permOk perm xs.length then pure (env, .recd (arrange perm xs))
+      else .stuck "record literal: every field of the type exactly once"
     | .field e i => do
       let (env, v) ← evalExpr fns n env e
       match v with
